@@ -161,6 +161,34 @@ def runnable (p : List Func) : Nat → Nat → Bool
     | none => false
     | some fn => !fn.body.hasOpaque && fn.body.calls.all (runnable p d)
 
+/-! ### the two tables from ops to codec functions must agree: xlate reads a call `codec.F[…](buf, …)` in a generated
+    body as an op; `opWriter` / `opReader` say which function an op names -/
+
+def dfltVal : Op → Val
+  | .scalar _ _ => .num 0
+  | .fixed _ _ _ => .str []
+  | .vstr _ _ => .str []
+  | .nums _ _ _ => .nums []
+  | .fixeds _ _ _ _ _ => .strs []
+  | .vstrs _ _ _ => .strs []
+  | .objs _ _ _ => .msgs []
+  | _ => .nil
+
+def fnName (p : List Func) (i : Nat) : Option String := p[i]?.map (·.name)
+
+def callOK (p : List Func) (c : Bool × String × Op) : Bool :=
+  let viaW (d : Bool) := (opWriter d c.2.2 (dfltVal c.2.2)).bind (fun x => fnName p x.1)
+  let viaR (d : Bool) := (opReader d c.2.2).bind (fun x => fnName p x.1)
+  let isDef := match c.2.2 with
+    | .fixed _ 32 false => true
+    | .fixeds _ _ 32 false _ => true
+    | _ => false
+  if c.1 then viaW false == some c.2.1 || (isDef && viaW true == some c.2.1)
+  else viaR false == some c.2.1 || (isDef && viaR true == some c.2.1)
+
+/-- every call of a codec function in the generated code, as xlate read it, is the call the model's table makes for that op -/
+def callsOK (p : List Func) (cs : List (Bool × String × Op)) : Bool := cs.all (callOK p)
+
 /-- how many bodies of the regenerated program are, statement for statement, the committed translation the theorems are about -/
 def sameBodies (g p : List Func) : List Bool :=
   (List.range p.length).map (fun i => decide (g[i]? = p[i]?))
